@@ -8,6 +8,7 @@ package weshnet
 // all types tried against real metadata and message envelopes and real log addresses.
 
 import (
+	"go.uber.org/zap"
 	"bytes"
 	"strings"
 	"context"
@@ -237,6 +238,66 @@ func TestVerifC12(t *testing.T) {
 			gms.Close()
 			r.db.Close()
 		}
+	}
+
+	// ---- through the service: MultiMemberGroupJoin with a tampered invitation (refused), then with the
+	// genuine one; what the node then finds under the group's key (what ActivateGroup and GroupInfo use)
+	// must be the genuine group, and the identity it acts under there the one derived for that group
+	nsvc := vharness.Budget(4, 40)
+	if vharness.Budget(1, 1) == 0 {
+		nsvc = 1
+	}
+	for si := 0; si < nsvc; si++ {
+		a := node.newAccount()
+		ams := a.openMeta(a.accountGroup())
+		aPK, _ := ams.memberDevice.Member().Raw()
+		aDev, _ := ams.memberDevice.Device().Raw()
+		svc := &service{secretStore: a.ss, accountGroupCtx: &GroupContext{metadataStore: ams, group: a.accountGroup()}, logger: zap.NewNop()}
+		g, _, _ := NewGroupMultiMember()
+		tampered := []struct {
+			name string
+			f    func(c *protocoltypes.Group)
+		}{
+			{"group type replaced by Contact", func(c *protocoltypes.Group) { c.GroupType = protocoltypes.GroupType_GroupTypeContact }},
+			{"group type replaced by Account", func(c *protocoltypes.Group) { c.GroupType = protocoltypes.GroupType_GroupTypeAccount }},
+			{"one bit of the secret flipped", func(c *protocoltypes.Group) { c.Secret = append([]byte(nil), c.Secret...); c.Secret[3] ^= 4 }},
+			{"signature removed", func(c *protocoltypes.Group) { c.SecretSig = nil }},
+		}
+		tm := tampered[si%len(tampered)]
+		bad := g.Copy()
+		tm.f(bad)
+		ok, note := true, ""
+		if _, err := svc.MultiMemberGroupJoin(ctx, &protocoltypes.MultiMemberGroupJoin_Request{Group: bad}); err == nil {
+			ok, note = false, "MultiMemberGroupJoin accepted an invitation with "+tm.name
+		}
+		if _, err := svc.MultiMemberGroupJoin(ctx, &protocoltypes.MultiMemberGroupJoin_Request{Group: g}); err != nil && ok {
+			ok, note = false, fmt.Sprintf("MultiMemberGroupJoin refused the genuine invitation after a tampered one (%s): %v", tm.name, err)
+		}
+		gpk, _ := g.GetPubKey()
+		if ok {
+			got, err := svc.getGroupForPK(ctx, gpk)
+			switch {
+			case err != nil:
+				ok, note = false, fmt.Sprintf("the joined group is not found under its key: %v", err)
+			case got.GroupType != protocoltypes.GroupType_GroupTypeMultiMember || !bytes.Equal(got.Secret, g.Secret) || !bytes.Equal(got.SecretSig, g.SecretSig):
+				ok, note = false, fmt.Sprintf("after a refused invitation with %s and the genuine one, the node finds under the group's key a group of type %v that is not the genuine invitation", tm.name, got.GroupType)
+			default:
+				md, err := a.ss.GetOwnMemberDeviceForGroup(got)
+				if err != nil {
+					ok, note = false, "no member/device for the joined group: "+err.Error()
+				} else {
+					m, _ := md.Member().Raw()
+					d, _ := md.Device().Raw()
+					if bytes.Equal(m, aPK) || bytes.Equal(d, aDev) {
+						ok, note = false, "in the joined group the account acts under its account identity"
+					}
+				}
+			}
+		}
+		out.Emit(vharness.Case{Kind: "service-join", Key: fmt.Sprintf("svc-join|%d|%s", si, tm.name), Nontrivial: true, OracleOK: ok, Note: note,
+			Sig: "joined group or identity differs from the genuine invitation", Replay: map[string]any{"tampered_first": tm.name}})
+		ams.Close()
+		a.db.Close()
 	}
 
 	// ---- replication descriptors ----
